@@ -19,7 +19,7 @@ Theorem svd_decompress_ortho n w A B C Ps Ls w' fs' Ps' i :
   (forall Lm, nth i Ls None = Some Lm -> ortho Op (length (nth i Ps [])) Lm) ->
   ortho Op n (nth i Ps' []).
 Proof.
-  unfold svd_decompress. destruct (Nat.eqb (length Ps) (length Ls)) eqn:Hl; [|discriminate]. apply Nat.eqb_eq in Hl.
+  unfold svd_decompress. destruct (length Ps <=? length Ls) eqn:Hl; [|discriminate]. apply Nat.leb_le in Hl.
   intros E Hi HP Hn HL. injection E as _ _ <-. rewrite (decompress_projs_nth Op) by assumption.
   destruct (nth i Ls None) as [Lm|]; [|exact HP]. apply (ortho_matmul Op Rth); auto.
 Qed.
